@@ -86,6 +86,44 @@ func caseDigest(c *Case) uint64 {
 	return prng.Derive(0, s).Seed()
 }
 
+// nestedLoops draws a term in which an inner loop VALUE (constructed once, with the outer
+// loop) is executed again by every outer iteration, possibly while an earlier execution of
+// it is still on the call stack: its iterations yield, fall through or break depending on
+// stateful conditions whose counters are rewound by effect statements, so that runs of the
+// same loop value end in every way (condition, break, suspension) in every order.
+func nestedLoops(r *prng.R) *Term {
+	tag := 0
+	nt := func() int { tag++; return tag }
+	cond := func(ctr int) *Cond { return &Cond{Tag: nt(), Ctr: ctr, Limit: r.Range(0, 4)} }
+	rewind := func() []Stmt {
+		ss := []Stmt{{Tag: nt(), Ctr: -1}}
+		for i := r.Intn(3); i > 0; i-- {
+			ss = append(ss, Stmt{Tag: nt(), Ctr: r.Intn(nCtr), Delta: r.Range(-4, 1)})
+		}
+		return ss
+	}
+	yield := &Term{K: TBind, RecvCtr: -1, Val: Expr{Ctr: r.Intn(nCtr), Lit: 10, Tag: nt()}, Th: &Thunk{Pre: rewind(), Ret: leaf([]TK{TNormal, TNormal, TContinue, TBreak}[r.Intn(4)])}}
+	quiet := &Term{K: TDelay, RecvCtr: -1, Th: &Thunk{Pre: rewind(), If: cond(r.Intn(nCtr)), Ret: leaf(TBreak), Else: leaf([]TK{TNormal, TContinue}[r.Intn(2)])}}
+	body := &Term{K: TDelay, RecvCtr: -1, Th: &Thunk{Pre: rewind(), If: cond(r.Intn(nCtr)), Ret: yield, Else: quiet}}
+	kind := []TK{TFor, TFor, TWhile, TLoop}[r.Intn(4)]
+	inner := &Term{K: kind, RecvCtr: -1, A: body}
+	if kind != TLoop {
+		inner.Cond = cond(r.Intn(nCtr))
+	}
+	if kind == TFor {
+		inner.Post = rewind()
+	}
+	var obody *Term = inner
+	if r.Bool() {
+		obody = &Term{K: TCombine, RecvCtr: -1, A: inner, B: &Term{K: TDelay, RecvCtr: -1, Th: &Thunk{Pre: rewind(), Ret: leaf(TNormal)}}}
+	}
+	if r.Chance(1, 3) {
+		obody = &Term{K: TCombine, RecvCtr: -1, A: obody, B: &Term{K: TBind, RecvCtr: -1, Val: Expr{Ctr: -1, Lit: 77}, Th: &Thunk{Pre: rewind(), Ret: leaf(TNormal)}}}
+	}
+	outer := &Term{K: TFor, RecvCtr: -1, Cond: &Cond{Tag: nt(), Ctr: r.Intn(nCtr), Limit: r.Range(2, 6)}, Post: rewind(), A: obody}
+	return &Term{K: TCombine, RecvCtr: -1, A: outer, B: &Term{K: TBind, RecvCtr: -1, Val: Expr{Ctr: -1, Lit: 99}, Th: &Thunk{Pre: rewind(), Ret: leaf(TReturn)}}}
+}
+
 // C08: seeded combinator terms vs the reference interpreter, full-drain histories
 // (a deterministic full history contains every truncation as a prefix; the quiesce step
 // adds "nothing runs when the consumer is not calling"), plus the algebraic laws run as
@@ -104,6 +142,10 @@ func C08(j *core.Job) {
 		for i := 0; i < perBatch; i++ {
 			r := prng.Derive(j.Seed, "C08", b, i)
 			t := GenTerm(r, cfg)
+			if i%4 == 3 {
+				t = nestedLoops(r)
+				rep.Count("nested_shared_loop_values", 1)
+			}
 			n := pilotYields(t, 48)
 			sc := &Scenario{Terms: []*Term{t}, RootOf: []int{0}}
 			sc.Threads = [][]Op{drainOps(r, 0, n, 48, hasRecv(t))}
